@@ -1,4 +1,4 @@
-CONSTANTS Depth2 = 6 Depth3 = 3 Depth4 = 2 MaxEntry = 4 X2 = 7 X3 = 2 X4 = 1 NegLimit = 4
+CONSTANTS Depth2 = 6 Depth3 = 3 Depth4 = 2 MaxEntry = 4 X2 = 7 X3 = 2 X4 = 1 NegLimit = 3
 SPECIFICATION Spec
 INVARIANTS Laws Emit
 CHECK_DEADLOCK FALSE
